@@ -82,6 +82,102 @@ def term_ops(v, acc=None):
     return acc
 
 
+def radii_conversion(ctx, repo, pid="C16"):
+    """per input-format branch of TranslationParser.__init__: x10 exactly once, no quantisation, float dtype, hash provenance
+    (shared with C09: the radii of the full-grid rows are these values)"""
+    ci = repo.cls("molgri.space.translations", "TranslationParser")
+    init = ci.methods.get("__init__")
+    where = init.where
+    # ---------------------------------------------------------------- COEF + FLOW per branch (abstract interpretation)
+    for name, (ls, rg) in {"literal": (False, False), "linspace": (True, False), "range": (False, True)}.items():
+        interp = Interp(repo, BranchHooks(ls, rg))
+        obj = interp.instantiate(ci, [Term("user_input")], {})
+        for f in interp.functions_entered:
+            ctx.analysed(f)
+        tg = obj.attrs.get("trans_grid")
+        gh = obj.attrs.get("grid_hash")
+        ctx.instance("COEF")
+        tag = f"{pid}.{name}"
+        top = contains_top(tg)
+        if top:
+            ctx.inconclusive("COEF", f"{tag}.x10", "converted grid not derived", where, witness=top)
+            continue
+        ok = isinstance(tg, Term) and tg.op == "mult" and len(tg.args) == 2 and \
+            ((isinstance(tg.args[1], Num) and tg.args[1].p == Poly.const(10)) or (isinstance(tg.args[0], Num) and tg.args[0].p == Poly.const(10)))
+        inner_ops = []
+        if ok:
+            inner = tg.args[0] if isinstance(tg.args[1], Num) else tg.args[1]
+            inner_ops = term_ops(inner)
+            ok = not any(o in ("mult", "div", "add", "sub", "pow") for o in inner_ops)
+        ctx.check(ok, "COEF", f"{tag}.x10", f"{name} branch: values are multiplied by 10 exactly once and not otherwise rescaled", where,
+                  "self.trans_grid = self.trans_grid * NM2ANGSTROM", witness=vstr(tg)[:300], derived=vstr(tg)[:200])
+        lossy = [o for o in inner_ops if o in ("round", "m.round", "floor", "ceil", "trunc", "rint", "fix", "around", "digitize", "floor_divide")]
+        ctx.instance("COEF")
+        if ok and lossy:
+            ctx.violate("COEF", f"{tag}.exact", f"{name} branch: the requested distances are quantised ({', '.join(lossy)}) before they are "
+                        "converted: radii that need more digits are silently moved, increments and shell boundaries follow", where,
+                        "self.trans_grid = ...", witness=vstr(tg)[:200])
+        elif ok:
+            ctx.ok("COEF", f"{tag}.exact", f"{name} branch: no rounding / quantisation between the parsed input and the converted grid", where)
+        # the identifier hashes the BYTES of the array: every path must produce float64 data, else "2" and "2.0" / "[2]" hash differently
+        def float_on_all_paths(t):
+            if isinstance(t, Term):
+                if t.op == "as_float":
+                    return True
+                if t.op in ("linspace", "arange", "array", "asarray", "full"):
+                    dt = t.kw.get("dtype")
+                    if isinstance(dt, ExtV) and dt.dotted in ("builtins.float", "numpy.float64", "numpy.double"):
+                        return True
+                    if t.op in ("array", "asarray") and t.args:
+                        return float_on_all_paths(t.args[0])
+                    return False
+                if t.op == "phi":
+                    alts = [a.items[1] if isinstance(a, TupleV) and len(a.items) == 2 else a for a in t.args]
+                    return all(float_on_all_paths(a) for a in alts)
+                if t.op in ("mult", "div", "add", "sub") and any(isinstance(a, Num) and a.p.is_const() and a.p.as_const().denominator != 1 for a in t.args):
+                    return True
+                if t.op == "div":
+                    return True
+                if t.args:
+                    return float_on_all_paths(t.args[0])
+            return False
+        ctx.instance("FLOW")
+        if ok:
+            ctx.check(float_on_all_paths(tg), "FLOW", f"{tag}.dtype", f"{name} branch: the values are converted to float on every path before they "
+                      "are hashed (the identifier depends on the array only, not on how a number was spelled)", where,
+                      "np.array(..., dtype=float)", witness=f"a path reaches the hash without a float conversion: {vstr(tg)[:200]}")
+        # dispatch reaches the right constructor
+        exp_op = {"literal": "literal_eval", "linspace": "linspace", "range": "arange"}[name]
+        ctx.check(exp_op in inner_ops, "DISPATCH", f"{tag}.ctor", f"{name} branch builds the grid with {exp_op}", where,
+                  witness=f"operations: {inner_ops}")
+        ctx.check("sort" in inner_ops, "ORD", f"{tag}.sorted", f"{name} branch: values pass through a sort before conversion", where,
+                  "np.sort(self.trans_grid)", witness=f"operations: {inner_ops}",
+                  ) if ok else None
+        # hash provenance
+        ctx.instance("FLOW")
+        md5 = None
+        st = [gh]
+        while st:
+            x = st.pop()
+            if isinstance(x, Term):
+                if x.op.startswith("hashlib."):
+                    md5 = x
+                    break
+                st.extend(list(x.args) + list(x.kw.values()))
+            elif isinstance(x, TupleV):
+                st.extend(x.items)
+        if md5 is None:
+            r = contains_top(gh)
+            (ctx.inconclusive if r else ctx.violate)("FLOW", f"{tag}.hash", "grid identifier is not a hash of the grid", where,
+                                                     "self.grid_hash = ...", witness=r or vstr(gh)[:200])
+        else:
+            arg = md5.args[0] if md5.args else None
+            ctx.check(arg is not None and vkey(arg) == vkey(tg), "FLOW", f"{tag}.hash", f"{name} branch: the identifier is computed "
+                      "from the converted array only (not from the input syntax)", where, "hashlib.md5(self.trans_grid)",
+                      witness=f"hashed value: {vstr(arg)[:200]}")
+
+
+
 def run(ctx, repo, tier):
     ci = repo.cls(TR, "TranslationParser")
     init = ci.find_method("__init__")
@@ -255,94 +351,7 @@ def run(ctx, repo, tier):
                                         "the non-negativity check: negative distances are silently converted instead of rejected (and the "
                                         "result may be unsorted / contain duplicates)", where, norm_stmt(st)[:160],
                                         witness=f"{src(c)[:80]} is applied before the check")
-    # ---------------------------------------------------------------- COEF + FLOW per branch (abstract interpretation)
-    for name, (ls, rg) in {"literal": (False, False), "linspace": (True, False), "range": (False, True)}.items():
-        interp = Interp(repo, BranchHooks(ls, rg))
-        obj = interp.instantiate(ci, [Term("user_input")], {})
-        for f in interp.functions_entered:
-            ctx.analysed(f)
-        tg = obj.attrs.get("trans_grid")
-        gh = obj.attrs.get("grid_hash")
-        ctx.instance("COEF")
-        tag = f"C16.{name}"
-        top = contains_top(tg)
-        if top:
-            ctx.inconclusive("COEF", f"{tag}.x10", "converted grid not derived", where, witness=top)
-            continue
-        ok = isinstance(tg, Term) and tg.op == "mult" and len(tg.args) == 2 and \
-            ((isinstance(tg.args[1], Num) and tg.args[1].p == Poly.const(10)) or (isinstance(tg.args[0], Num) and tg.args[0].p == Poly.const(10)))
-        inner_ops = []
-        if ok:
-            inner = tg.args[0] if isinstance(tg.args[1], Num) else tg.args[1]
-            inner_ops = term_ops(inner)
-            ok = not any(o in ("mult", "div", "add", "sub", "pow") for o in inner_ops)
-        ctx.check(ok, "COEF", f"{tag}.x10", f"{name} branch: values are multiplied by 10 exactly once and not otherwise rescaled", where,
-                  "self.trans_grid = self.trans_grid * NM2ANGSTROM", witness=vstr(tg)[:300], derived=vstr(tg)[:200])
-        lossy = [o for o in inner_ops if o in ("round", "m.round", "floor", "ceil", "trunc", "rint", "fix", "around", "digitize", "floor_divide")]
-        ctx.instance("COEF")
-        if ok and lossy:
-            ctx.violate("COEF", f"{tag}.exact", f"{name} branch: the requested distances are quantised ({', '.join(lossy)}) before they are "
-                        "converted: radii that need more digits are silently moved, increments and shell boundaries follow", where,
-                        "self.trans_grid = ...", witness=vstr(tg)[:200])
-        elif ok:
-            ctx.ok("COEF", f"{tag}.exact", f"{name} branch: no rounding / quantisation between the parsed input and the converted grid", where)
-        # the identifier hashes the BYTES of the array: every path must produce float64 data, else "2" and "2.0" / "[2]" hash differently
-        def float_on_all_paths(t):
-            if isinstance(t, Term):
-                if t.op == "as_float":
-                    return True
-                if t.op in ("linspace", "arange", "array", "asarray", "full"):
-                    dt = t.kw.get("dtype")
-                    if isinstance(dt, ExtV) and dt.dotted in ("builtins.float", "numpy.float64", "numpy.double"):
-                        return True
-                    if t.op in ("array", "asarray") and t.args:
-                        return float_on_all_paths(t.args[0])
-                    return False
-                if t.op == "phi":
-                    alts = [a.items[1] if isinstance(a, TupleV) and len(a.items) == 2 else a for a in t.args]
-                    return all(float_on_all_paths(a) for a in alts)
-                if t.op in ("mult", "div", "add", "sub") and any(isinstance(a, Num) and a.p.is_const() and a.p.as_const().denominator != 1 for a in t.args):
-                    return True
-                if t.op == "div":
-                    return True
-                if t.args:
-                    return float_on_all_paths(t.args[0])
-            return False
-        ctx.instance("FLOW")
-        if ok:
-            ctx.check(float_on_all_paths(tg), "FLOW", f"{tag}.dtype", f"{name} branch: the values are converted to float on every path before they "
-                      "are hashed (the identifier depends on the array only, not on how a number was spelled)", where,
-                      "np.array(..., dtype=float)", witness=f"a path reaches the hash without a float conversion: {vstr(tg)[:200]}")
-        # dispatch reaches the right constructor
-        exp_op = {"literal": "literal_eval", "linspace": "linspace", "range": "arange"}[name]
-        ctx.check(exp_op in inner_ops, "DISPATCH", f"{tag}.ctor", f"{name} branch builds the grid with {exp_op}", where,
-                  witness=f"operations: {inner_ops}")
-        ctx.check("sort" in inner_ops, "ORD", f"{tag}.sorted", f"{name} branch: values pass through a sort before conversion", where,
-                  "np.sort(self.trans_grid)", witness=f"operations: {inner_ops}",
-                  ) if ok else None
-        # hash provenance
-        ctx.instance("FLOW")
-        md5 = None
-        st = [gh]
-        while st:
-            x = st.pop()
-            if isinstance(x, Term):
-                if x.op.startswith("hashlib."):
-                    md5 = x
-                    break
-                st.extend(list(x.args) + list(x.kw.values()))
-            elif isinstance(x, TupleV):
-                st.extend(x.items)
-        if md5 is None:
-            r = contains_top(gh)
-            (ctx.inconclusive if r else ctx.violate)("FLOW", f"{tag}.hash", "grid identifier is not a hash of the grid", where,
-                                                     "self.grid_hash = ...", witness=r or vstr(gh)[:200])
-        else:
-            arg = md5.args[0] if md5.args else None
-            ctx.check(arg is not None and vkey(arg) == vkey(tg), "FLOW", f"{tag}.hash", f"{name} branch: the identifier is computed "
-                      "from the converted array only (not from the input syntax)", where, "hashlib.md5(self.trans_grid)",
-                      witness=f"hashed value: {vstr(arg)[:200]}")
-
+    radii_conversion(ctx, repo, "C16")
     # ---------------------------------------------------------------- increments
     gi = repo.func(TR, "get_increments")
     ctx.analysed(gi)
